@@ -39,6 +39,8 @@ def _replay(ctx, binary, cases, what):
     ctx.cov["traces_validated_against_impl"] += len(cases)
     ctx.cov["evaluations"] += len(cases)
     for r in recs:
+        if ctx.enough():
+            break
         if r.get("mismatch"):
             # confirm from a clean start before reporting
             again = vlib.run_harness(ctx, binary, cases=[r["case"]])
@@ -102,5 +104,7 @@ def replay(ctx, path):
     case = json.load(open(path))["case"]["case"]
     recs = vlib.run_harness(ctx, binary, cases=[case])
     for r in recs:
+        if ctx.enough():
+            break
         if r.get("mismatch"):
             ctx.violation({"case": r["case"], "got": r["got"], "want": r["want"]}, r["why"])
